@@ -17,6 +17,8 @@ typedef void (*_dispatch_verif_atomic_cb_t)(const volatile void *addr, unsigned 
 		int op, uint64_t oldv, uint64_t newv, const char *func, int line);
 extern _dispatch_verif_atomic_cb_t _dispatch_verif_atomic_cb;
 extern void (*_dispatch_verif_yield_cb)(const volatile void *addr, const char *func, int line);
+// loads are reported only to this separate, optional callback (same signature, op DVA_LOAD, old == new == value read)
+extern _dispatch_verif_atomic_cb_t _dispatch_verif_load_cb;
 struct _dispatch_verif_site_s { const char *file; int line; int op; const char *order; const char *expr; const char *func; };
 #define _DVA_SITE(opk, m, p) do { static const struct _dispatch_verif_site_s \
 		__attribute__((section("dva_sites"), used)) _dva_s = { __FILE__, __LINE__, (opk), #m, #p, __func__ }; (void)_dva_s; } while (0)
@@ -67,8 +69,11 @@ struct _dispatch_verif_site_s { const char *file; int line; int op; const char *
 		memory_order_##m); _DVA_POST(_dp, DVA_##o##_K, _r, (__typeof__(_r))(_r op _v)); \
 		_r; })
 #undef os_atomic_load
-#define os_atomic_load(p, m) ({ _DVA_SITE(DVA_LOAD, m, p); \
-		atomic_load_explicit(_os_atomic_c11_atomic(p), memory_order_##m); })
+#define os_atomic_load(p, m) ({ _DVA_SITE(DVA_LOAD, m, p); __typeof__(p) _dlp = (p); \
+		_os_atomic_basetypeof(p) _dlv = atomic_load_explicit(_os_atomic_c11_atomic(_dlp), memory_order_##m); \
+		if (__builtin_expect(_dispatch_verif_load_cb != 0, 0)) \
+			_dispatch_verif_load_cb(_dlp, sizeof(*_dlp), DVA_LOAD, _DVA_U64(_dlv), _DVA_U64(_dlv), __func__, __LINE__); \
+		_dlv; })
 #undef os_atomic_thread_fence
 #define os_atomic_thread_fence(m) do { _DVA_SITE(10, m, fence); atomic_thread_fence(memory_order_##m); } while (0)
 #define DVA_add_K DVA_ADD
